@@ -72,6 +72,8 @@ type MMsg struct {
 	Key      string
 	T0, T1   time.Time // publish op interval
 	Seq      int
+	PubTime  time.Time // exact, once a delivery reported it
+	Exact    bool
 	Unstable bool // payload may be altered in a known-ambiguous way (never set today)
 }
 
@@ -87,24 +89,27 @@ type ED struct {
 	Msg    *MMsg
 	Origin *ED // source delivery for dead-letter forwards; nil for publishes
 	// published_at of the delivery row
-	CreLo, CreHi time.Time
-	State        int
-	AckID        string
-	Seen         int // deliveries observed
-	SeenUnc      int // possible extra unobserved deliveries
-	LeaseLo      time.Time
-	LeaseHi      time.Time
-	RetLo, RetHi time.Time
-	Fuzzy        bool // state / existence unknown: may be delivered, never required
-	DLMaybe      bool // may already have been dead-lettered
-	Cause        string
-	SettledLo    time.Time // when it became acked/DL (lower bound)
-	Fwd          []*ED
-	ForwardCount int // definite forwards seen since last revive (C06)
-	BySeek       bool
-	Grace        bool // acknowledged, but the server may not have committed it yet (stalled-server push runs)
-	Round        int // incremented whenever a seek (possibly) re-opened this delivery: a new dead-letter round
-	FwdRound     int // forwarded copies: the source round that produced it
+	CreLo, CreHi  time.Time
+	State         int
+	AckID         string
+	Seen          int // deliveries observed
+	SeenUnc       int // possible extra unobserved deliveries
+	LeaseLo       time.Time
+	LeaseHi       time.Time
+	RetLo, RetHi  time.Time
+	Fuzzy         bool // state / existence unknown: may be delivered, never required
+	DLMaybe       bool // may already have been dead-lettered
+	Cause         string
+	SettledLo     time.Time // when it became acked/DL (lower bound)
+	Fwd           []*ED
+	ForwardCount  int // definite forwards seen since last revive (C06)
+	BySeek        bool
+	MaybePruned   bool // its completed row may have been pruned (sticky through later seeks)
+	SnapPruned    bool // settled by a seek to a snapshot whose view of this message may have lost a pruned ack
+	MaybeCopy     bool // bound by a guess among copies of one message, one of them dead-letter forwarded
+	Grace         bool // acknowledged, but the server may not have committed it yet (stalled-server push runs)
+	Round         int  // incremented whenever a seek (possibly) re-opened this delivery: a new dead-letter round
+	FwdRound      int  // forwarded copies: the source round that produced it
 	everDelivered bool
 }
 
@@ -115,7 +120,10 @@ type MSnap struct {
 	T0, T1 time.Time
 	InU    map[*MMsg]int // by message (publish deliveries only): 1 = unacked at snapshot, 0 = acked, 2 = unknown
 	ByED   map[*ED]int   // by delivery of the snapshot's own subscription
-	Labels map[string]string
+	// acknowledged on the snapshot's subscription, but the completed row may have been pruned
+	// before the snapshot was taken (known finding C13/restored_pruned_ack)
+	PrunedAck map[*MMsg]bool
+	Labels    map[string]string
 }
 
 type pruneRun struct {
@@ -213,6 +221,11 @@ func nominalBackoff(c *SubCfg, n int) time.Duration {
 }
 
 func (c *SubCfg) fullDL() bool { return c.DLTopic != nil && c.MaxAttempts > 0 }
+
+// strictDL: the policy is in force and its dead-letter topic still exists. With the topic
+// deleted the text says nothing (the policy may be void, or retire deliveries into nowhere):
+// everything about dead-lettering is then "may", nothing is "must".
+func (c *SubCfg) strictDL() bool { return c.fullDL() && c.DLTopic.Live }
 
 // ---- resources ----------------------------------------------------------------------------
 
@@ -486,9 +499,21 @@ func (m *Model) Pull(s *MSub, max int, resp []RecvMsg, t0, t1 time.Time) *Violat
 			// several equally plausible expectations for one unknown ack id (copies of one
 			// message on one subscription, e.g. a dead-letter cycle): the binding is a guess,
 			// so the ones not chosen are no longer required (they may be the real match)
+			maybeCopy := false
 			for _, x := range ties {
 				x.Fuzzy = true
 				m.probe("ambiguous_binding")
+				if x.Origin != nil {
+					maybeCopy = true
+				}
+			}
+			if e != nil && len(ties) > 0 && (maybeCopy || e.Origin != nil) {
+				// the row delivered may really be a dead-letter copy (or the original): the
+				// ordering oracle, which exempts forwarded copies, must exempt the guess too
+				e.MaybeCopy = true
+				for _, x := range ties {
+					x.MaybeCopy = true
+				}
 			}
 			if e == nil {
 				// is it a second ack id for an already-bound delivery? (forwarded twice / duplicate row)
@@ -523,6 +548,22 @@ func (m *Model) Pull(s *MSub, max int, resp []RecvMsg, t0, t1 time.Time) *Violat
 		if !e.Fuzzy && !(e.State == stAcked && e.Grace) {
 			switch e.State {
 			case stAcked:
+				if e.SnapPruned {
+					// known finding: the snapshot is computed from delivery rows, and the row
+					// of a message acknowledged after the oldest unacknowledged one may have
+					// been pruned already; seeking a sibling subscription to that snapshot then
+					// restores a message that was acknowledged when the snapshot was taken
+					if v := m.knownOr(viol("C13", "restored_pruned_ack", "%v delivered after a seek to a snapshot in which message %d was acknowledged (its completed row had been pruned before the snapshot was taken)", e, e.Msg.Seq)); v != nil {
+						return v
+					}
+					// carry on as if that seek had revived it (lease and retention restarted)
+					e.State, e.SnapPruned = stOut, false
+					e.LeaseLo = epoch
+					if x := t1.Add(cfg.Retention); x.After(e.RetHi) {
+						e.RetHi = x
+					}
+					break
+				}
 				p := "C03"
 				if e.BySeek {
 					p = "C13"
@@ -560,12 +601,26 @@ func (m *Model) Pull(s *MSub, max int, resp []RecvMsg, t0, t1 time.Time) *Violat
 		if e.Origin == nil && (r.PubTime.Before(e.Msg.T0.Add(-eps)) || r.PubTime.After(e.Msg.T1.Add(eps))) {
 			return viol("C02", "publish_time", "publish time %v outside publish interval of message %d", r.PubTime, e.Msg.Seq)
 		}
+		if !r.PubTime.IsZero() && !e.Msg.Exact {
+			if !e.Msg.PubTime.IsZero() && !e.Msg.PubTime.Equal(r.PubTime) {
+				return viol("C02", "publish_time_unstable", "message %d reported with publish time %v, earlier %v", e.Msg.Seq, r.PubTime, e.Msg.PubTime)
+			}
+			// the publish time is now known exactly: deliveries created by the publish carry it
+			e.Msg.PubTime, e.Msg.Exact = r.PubTime, true
+			for _, s2 := range m.AllSubs {
+				for _, x := range s2.EDs {
+					if x.Msg == e.Msg && x.Origin == nil && !x.CreLo.After(r.PubTime) && !x.CreHi.Before(r.PubTime) {
+						x.CreLo, x.CreHi = r.PubTime, r.PubTime
+					}
+				}
+			}
+		}
 		// attempt number
 		if r.Attempt < e.Seen+1 || r.Attempt > e.Seen+e.SeenUnc+1 {
 			return viol("C04", "delivery_attempt", "%v delivered with delivery_attempt=%d, expected %d", e, r.Attempt, e.Seen+1)
 		}
 		// dead-letter bound
-		if cfg.fullDL() && !e.Fuzzy && e.Seen >= int(cfg.MaxAttempts) {
+		if cfg.strictDL() && !e.Fuzzy && e.Seen >= int(cfg.MaxAttempts) {
 			return viol("C06", "too_many_attempts", "%v delivered as attempt %d with max_delivery_attempts=%d", e, r.Attempt, cfg.MaxAttempts)
 		}
 		delivered = append(delivered, e)
@@ -573,14 +628,14 @@ func (m *Model) Pull(s *MSub, max int, resp []RecvMsg, t0, t1 time.Time) *Violat
 	// C05 ordering oracle (independent of may/must)
 	if cfg.Ordered && !s.OrderedToggled {
 		for _, e := range delivered {
-			if e.Msg.Key == "" || e.Origin != nil {
+			if e.Msg.Key == "" || e.Origin != nil || e.MaybeCopy {
 				continue
 			}
 			for _, p := range s.EDs {
 				if p == e {
 					break
 				}
-				if p.Origin != nil || p.Msg.Key != e.Msg.Key || p.Msg.Seq >= e.Msg.Seq {
+				if p.Origin != nil || p.MaybeCopy || p.Msg.Key != e.Msg.Key || p.Msg.Seq >= e.Msg.Seq {
 					continue
 				}
 				if !p.possiblySettled(t1) || seen[p] {
@@ -632,7 +687,7 @@ func (m *Model) Pull(s *MSub, max int, resp []RecvMsg, t0, t1 time.Time) *Violat
 		if e.DLMaybe {
 			// may already be dead-lettered; if it is definitely due for it now, an
 			// untruncated pull settles the question (it is dead-lettered by now)
-			if cfg.fullDL() && e.Seen >= int(cfg.MaxAttempts) && !(cfg.Ordered && e.Msg.Key != "") {
+			if cfg.strictDL() && e.Seen >= int(cfg.MaxAttempts) && !(cfg.Ordered && e.Msg.Key != "") {
 				mustDL = append(mustDL, e)
 			}
 			continue
@@ -648,7 +703,7 @@ func (m *Model) Pull(s *MSub, max int, resp []RecvMsg, t0, t1 time.Time) *Violat
 			}
 		}
 		if cfg.fullDL() && e.Seen+e.SeenUnc >= int(cfg.MaxAttempts) {
-			if e.Seen >= int(cfg.MaxAttempts) {
+			if e.Seen >= int(cfg.MaxAttempts) && cfg.strictDL() {
 				mustDL = append(mustDL, e)
 			}
 			continue
@@ -694,6 +749,7 @@ func (m *Model) Pull(s *MSub, max int, resp []RecvMsg, t0, t1 time.Time) *Violat
 			e.SeenUnc = 0
 		}
 		e.everDelivered = true
+		e.MaybePruned = false // its row exists
 		e.LeaseLo = t0.Add(nominalBackoff(cfg, e.Seen))
 		e.LeaseHi = t1.Add(nominalBackoff(cfg, e.Seen+e.SeenUnc) + time.Second)
 		e.Cause = "lease"
@@ -879,7 +935,7 @@ func (m *Model) Sweep(limit int, t0, t1 time.Time) {
 				continue
 			}
 			may = append(may, e)
-			if !e.Fuzzy && e.State == stOut && e.Seen >= int(s.Cfg.MaxAttempts) && e.mustAlive(t1) && e.mustDue(t0) {
+			if s.Cfg.strictDL() && !e.Fuzzy && e.State == stOut && e.Seen >= int(s.Cfg.MaxAttempts) && e.mustAlive(t1) && e.mustDue(t0) {
 				must = append(must, e)
 			}
 		}
@@ -960,6 +1016,21 @@ func (m *Model) ModAck(named *MSub, ids []string, d time.Duration, t0, t1 time.T
 
 // ---- seek -----------------------------------------------------------------------------------
 
+// NotePrune records one run of prune-completed-deliveries. Deliveries whose state is not
+// known exactly (they may have been completed at any time since they were created) may have
+// lost their row in this run; that stays true whatever is learnt about them later, until
+// the row is seen again in a delivery.
+func (m *Model) NotePrune(at time.Time, minAge time.Duration) {
+	m.pruneRuns = append(m.pruneRuns, pruneRun{at: at, minAge: minAge})
+	for _, s := range m.AllSubs {
+		for _, e := range s.EDs {
+			if (e.Fuzzy || e.DLMaybe) && !at.Add(-minAge).Before(e.CreLo.Add(-eps)) {
+				e.MaybePruned = true
+			}
+		}
+	}
+}
+
 func (m *Model) mayHaveBeenPruned(e *ED, now time.Time) bool {
 	for _, p := range m.pruneRuns {
 		if p.at.After(e.SettledLo) && !p.at.Add(-p.minAge).Before(e.SettledLo.Add(-eps)) {
@@ -970,7 +1041,9 @@ func (m *Model) mayHaveBeenPruned(e *ED, now time.Time) bool {
 }
 
 func (m *Model) revive(e *ED, t0, t1 time.Time) {
-	if m.mayHaveBeenPruned(e, t0) {
+	e.SnapPruned = false
+	if e.MaybePruned || m.mayHaveBeenPruned(e, t0) {
+		e.MaybePruned = true // sticky: a row that may be gone stays "may be gone" through later seeks
 		// the completed row may have been pruned (then nothing is revived) or not (then it
 		// is outstanding again with lease and retention restarted by the seek)
 		m.fuzzyBySeek(e, t0, t1)
@@ -992,6 +1065,7 @@ func (m *Model) revive(e *ED, t0, t1 time.Time) {
 // fuzzyBySeek: the seek landed in a zone where the text says nothing; afterwards the delivery
 // may be acknowledged, or outstanding with a lease and retention restarted by the seek.
 func (m *Model) fuzzyBySeek(e *ED, t0, t1 time.Time) {
+	e.SnapPruned = false
 	e.Fuzzy = true
 	e.BySeek = true
 	if e.State != stOut || e.DLMaybe {
@@ -1011,6 +1085,7 @@ func (m *Model) fuzzyBySeek(e *ED, t0, t1 time.Time) {
 }
 
 func (m *Model) settleBySeek(e *ED, t0 time.Time) {
+	e.SnapPruned = false
 	e.State = stAcked
 	e.Fuzzy = false
 	e.DLMaybe = false
@@ -1040,6 +1115,8 @@ func (m *Model) SeekTime(s *MSub, T time.Time, t0, t1 time.Time) {
 		case before:
 			if e.State == stOut || e.Fuzzy || e.DLMaybe {
 				m.settleBySeek(e, t0)
+			} else if e.State == stAcked {
+				e.BySeek = true // the seek confirmed it acknowledged: a later delivery is the seek's doing
 			}
 		case after:
 			if e.Fuzzy {
@@ -1069,7 +1146,7 @@ func (m *Model) SeekTime(s *MSub, T time.Time, t0, t1 time.Time) {
 }
 
 func (m *Model) CreateSnap(name string, s *MSub, labels map[string]string, t0, t1 time.Time) *MSnap {
-	sn := &MSnap{Name: name, Sub: s, Topic: s.Topic, T0: t0, T1: t1, InU: map[*MMsg]int{}, ByED: map[*ED]int{}, Labels: labels}
+	sn := &MSnap{Name: name, Sub: s, Topic: s.Topic, T0: t0, T1: t1, InU: map[*MMsg]int{}, ByED: map[*ED]int{}, PrunedAck: map[*MMsg]bool{}, Labels: labels}
 	count := map[*MMsg]int{}
 	for _, e := range s.EDs {
 		if e.State != stGone {
@@ -1094,6 +1171,10 @@ func (m *Model) CreateSnap(name string, s *MSub, labels map[string]string, t0, t
 		sn.ByED[e] = st
 		if e.Origin == nil && count[e.Msg] == 1 {
 			sn.InU[e.Msg] = st
+			if st == 0 && e.State == stAcked && (e.MaybePruned || m.mayHaveBeenPruned(e, t0)) {
+				sn.PrunedAck[e.Msg] = true
+				m.probe("snapshot_after_pruned_ack")
+			}
 		}
 	}
 	m.Snaps[name] = sn
@@ -1146,6 +1227,10 @@ func (m *Model) SeekSnap(s *MSub, sn *MSnap, t0, t1 time.Time) {
 		case 0:
 			if e.State == stOut || e.Fuzzy || e.DLMaybe {
 				m.settleBySeek(e, t0)
+			}
+			if !own && e.Origin == nil && sn.PrunedAck[e.Msg] && e.State == stAcked {
+				e.SnapPruned = true
+				m.probe("sibling_seek_to_snapshot_with_pruned_ack")
 			}
 		default:
 			m.fuzzyBySeek(e, t0, t1)
@@ -1312,7 +1397,7 @@ func (m *Model) Nack(ids []string, t0, t1 time.Time) {
 		hi := t1.Add(nominalBackoff(cfg, e.Seen+e.SeenUnc) + time.Second)
 		certain := !e.Fuzzy && !e.DLMaybe && e.mustAlive(t1) && e.Sub.Live
 		if cfg.fullDL() && e.Seen+e.SeenUnc >= int(cfg.MaxAttempts) {
-			if certain && e.Seen >= int(cfg.MaxAttempts) {
+			if certain && e.Seen >= int(cfg.MaxAttempts) && cfg.strictDL() {
 				m.deadLetter(e, t0, t1)
 				m.probe("dl_via_nack")
 			} else if e.Sub.Live {
